@@ -323,6 +323,13 @@ def corpus(thorough: bool) -> list[tuple[str, str]]:
                 continue
             second = CONTEXTS[second_ctx].format(body=t2.format(n="x"), ind=_indent(t2.format(n="x"), 4), ind2="")
             out.append((f"twice|{d1} then {d2} ({second_ctx})", '"""Module doc."""\nfrom typing import TYPE_CHECKING\n' + t1.format(n="x") + "\n" + second + "\n"))
+    # a string that opens the `else:` / `except:` / `finally:` block is not the docstring of the assignment that closes the block before it
+    for tail_kw, opener in (("else", "if cond:"), ("except ImportError", "try:"), ("finally", "try:")):
+        out.append((f"module|string opening the {tail_kw.split()[0]} block after an assignment",
+                    '"""Module doc."""\nfrom typing import TYPE_CHECKING\n' + f'{opener}\n    x = 1\n{tail_kw}:\n    """Not about x."""\n    y = 2\n'))
+    # a documented, annotated name re-assigned together with a new name: the new name starts without docstring and annotation
+    for d1 in ("assignment", "annotated assignment"):
+        out.append((f"twice|{d1} then chained assignment (top level)", '"""Module doc."""\nfrom typing import TYPE_CHECKING\n' + DEFS[d1].format(n="x") + "\n" + DEFS["chained assignment"].format(n="x") + "\n"))
     # two different names one after the other in a class body: what the second one becomes does not depend on the first
     seq = {**{k_: v_ for k_, v_ in DEFS.items() if k_ in ("function", "async function", "decorated function", "class", "assignment")}, **{k_: v_ for k_, v_ in CLASS_ONLY.items() if k_ != "init attributes"}}
     for (d1, t1), (d2, t2) in itertools.product(seq.items(), repeat=2):
@@ -339,4 +346,10 @@ def corpus(thorough: bool) -> list[tuple[str, str]]:
         second = ctx_t.format(body="self.x = p", ind=_indent("self.x = p", 4), ind2=_indent("self.x = p", 8))
         init += _indent(second, 4) + "\n"
         out.append((f"init|first binding {first}|second {cname}", head + body + _indent(init, 4) + "\n"))
+    # definitions nested in the body of __init__ (which the visitor walks for `self.x = ...`): they bind local names, nothing on the class
+    for dname in ("function", "decorated function", "async function", "class", "assignment", "annotated assignment", "from import", "import"):
+        init = "def __init__(self, p):\n    self.x = p\n" + _indent(DEFS[dname].format(n="helper"), 4) + "\n"
+        out.append((f"init|local {dname}", head + _indent(init, 4) + "\n"))
+    init = "def __init__(self, p):\n    self.x = p\n    @overload\n    def helper(a: int) -> int: ...\n    @overload\n    def helper(a: str) -> str: ...\n    def helper(a): return a\n"
+    out.append(("init|local overloaded function", head.replace("TYPE_CHECKING", "TYPE_CHECKING, overload") + _indent(init, 4) + "\n"))
     return out
